@@ -739,7 +739,15 @@ class Interp:
         qo, ro = obj(a.shape[:-2] + (n, min(n, k))), obj(a.shape[:-2] + (min(n, k), k))
         queue = self.__dict__.get("qr_queue")
         if queue is None:
-            raise Unsupported("qr without a contract oracle")
+            # no oracle supplied: the trivial instance of the contract, Q = A and R = I (used where only the operand matters)
+            if n < k:
+                raise Unsupported("qr of a wide matrix without a contract oracle")
+            for idx in np.ndindex(a.shape[:-2]):
+                qo[idx] = a[idx]
+                for i in range(k):
+                    for j in range(k):
+                        ro[idx + (i, j)] = self.num(1 if i == j else 0)
+            return [qo, ro]
         for idx in np.ndindex(a.shape[:-2]):
             if not queue:
                 raise Unsupported("qr contract oracle exhausted")
